@@ -788,7 +788,7 @@ def e2e_plan(ctx):
     """list of (program params, [(mode, opt, optset, live)])"""
     rng = ctx.rng
     plan = []
-    nprog = ctx.n(10, 60)
+    nprog = ctx.n(8, 36)
     per = ctx.n(10, 24)
     osets = [o for o in option_sets(ctx.scratch) if not o.startswith("args-") and not o.startswith("max-stack-")
              and o not in ("finish", "script-fp", "recover-rec")]
@@ -842,6 +842,7 @@ def e2e(ctx, objdir):
         jobs.append((key, {"corpus": c["name"], "seed": c["name"], "threads": 1}, c["source"],
                      {"sigs": [c["name"]]}, c["mode"], c["opt"], c["optset"], False))
     # clause-audit scenarios: exit paths, call depth beyond --max-stack, FP environment, fork/vfork/exec, signals
+    seen_sc = set()
     for si, name in enumerate(sorted(SC.SCENARIOS)):
         key = "s_" + name
         sources[key] = SC.source(name)
@@ -850,8 +851,12 @@ def e2e(ctx, objdir):
             oset = ctx.rng.choice(SC.PLAN[name])
             if mode == "cyg" and oset in ("args", "auto-args"):
                 oset = "plain"
+            opt = ctx.rng.choice(["-O1", "-O2"])
+            if (key, mode, opt, oset) in seen_sc:          # one data directory / report file per configuration
+                continue
+            seen_sc.add((key, mode, opt, oset))
             jobs.append((key, {"scenario": name, "seed": ("scenario", name), "threads": 1}, sources[key],
-                         {"sigs": ["scenario:" + name]}, mode, ctx.rng.choice(["-O1", "-O2"]), oset, False))
+                         {"sigs": ["scenario:" + name]}, mode, opt, oset, False))
     # finish-trigger scenarios: another thread ends tracing while workers sit in (tail-)called functions
     import random
     for fi in range(ctx.n(6, 40)):
@@ -982,6 +987,11 @@ def common_meta(ctx):
         "-pg code addresses its return slot as 8(%rbp) of the real frame (false after a DRAP stack realignment: known "
         "finding pg-drap-realigned-stack, dedicated witness)",
         "dynamic linker lazy binding, thread schedules, compiler code generation: monitored end-to-end only",
+        "every traced thread has a few KB (about 6 KB measured) of stack below the frame of a hooked function for the "
+        "stub and the hook (a thread created with PTHREAD_STACK_MIN that uses most of it itself overflows under "
+        "tracing: resource limit, not modelled)",
+        "MXCSR: control and status bits are what the wrappers' stmxcsr/ldmxcsr pair gives back; the x87 control word "
+        "and x87 status are left to the ABI (libmcount is built -mgeneral-regs-only; libc callees keep the control word)",
     ]
 
 
@@ -996,7 +1006,7 @@ def run(ctx):
 
     # ---- (a) shadow-stack trees
     scases = []
-    n = ctx.n(200, 3000)
+    n = ctx.n(160, 1200)
     groups = {}
     for i in range(n):
         shape = SHAPES[i % len(SHAPES)]
@@ -1045,7 +1055,7 @@ def run(ctx):
             ycases.append(hc)
             ctx.case(key=("hookvec", hc[1], tuple(hc[2])), tags=["hookvec:%s:level=%d" % (hc[1], hc[0]), "mxcsr:rc=%d" % ((hc[4] >> 13) & 3)])
     tcases = []
-    for i in range(ctx.n(18, 300)):
+    for i in range(ctx.n(18, 200)):
         tree = gen_tree(ctx.rng, ["tail", "pg", "plttail", "plt", "deep"][i % 5], maxd=4, budget=10)
         c = run_stop_case(h, tree, ctx.rng)
         if c is None:
@@ -1058,7 +1068,7 @@ def run(ctx):
         ctx.case(key=("stop", coq_tree(tree), c["cut"]), tags=["finish:in-process"] +
                  (["finish:tail-called-returns"] if "URet 1 (Real" in c["obs"] and any(o[0] == "E" and o[2] == c["slot"] for o in c["ops"][-1:]) else []))
     ecases = []
-    for i in range(ctx.n(16, 300)):
+    for i in range(ctx.n(16, 200)):
         tree = gen_tree(ctx.rng, SHAPES[i % len(SHAPES)], maxd=ctx.rng.choice([3, 5]), budget=ctx.rng.choice([6, 14]))
         c = run_est_case(h, tree)
         if c["crashed"]:
@@ -1070,7 +1080,7 @@ def run(ctx):
         tree_tags(c["tree"], tags)
         ctx.case(key=("est", coq_tree(c["tree"])), tags=sorted("est:" + t for t in tags if not t.startswith("leaf")))
     dcases = []
-    for i in range(ctx.n(10, 200)):
+    for i in range(ctx.n(10, 120)):
         nth = ctx.rng.choice([2, 2, 3, 4])
         trees = [gen_tree(ctx.rng, ctx.rng.choice(["pg", "tail", "plt", "cygpg", "mixed"]), maxd=4, budget=8) for _ in range(nth)]
         c = run_sched_case(h, trees, ctx.rng)
